@@ -17,10 +17,14 @@ def bounds(tier):
 
 
 def cases(tier, seed):
+    # one case per (scheme, order): all option combinations in ONE process, catalogue order then reverse order (fresh instances)
+    groups = {}
     for spec in MC.schemes(tier):
         if spec[0] == "identity":
             continue
-        yield f"C14|{spec[0]}|{spec[1]}", {"kind": "scheme", "spec": spec}
+        groups.setdefault((spec[0], spec[2].get("order", spec[2].get("bits_per_symbol"))), []).append(spec)
+    for (scheme, order), specs in groups.items():
+        yield f"C14|{scheme}|order={order}", {"kind": "schemes", "specs": specs}
     top = 16 if tier == "quick" else 20
     nb = 8 if tier == "quick" else 32
     for blk in range(nb):
@@ -29,12 +33,13 @@ def cases(tier, seed):
 
 
 def component_of(p):
-    return p["spec"][0] if p["kind"] == "scheme" else "gray-utils"
+    return p["specs"][0][0] if p["kind"] == "schemes" else "gray-utils"
 
 
 def execute(p, res):
-    if p["kind"] == "scheme":
-        scheme_case(p["spec"], res)
+    if p["kind"] == "schemes":
+        for spec in list(p["specs"]) + (list(reversed(p["specs"])) if len(p["specs"]) > 1 else []):
+            scheme_case(spec, res)
     elif p["kind"] == "gray":
         gray_range(p, res)
     else:
